@@ -25,7 +25,7 @@ import (
 
 // c12BatchKey: the keys the model is asked to use: "old" = /repo as it is (ae91177); "framed" once hooks/C12-fix3.patch is
 // committed (lib/c12_flip3.py).
-var c12BatchKey = "old"
+var c12BatchKey = "framed"
 
 type c12BatchSuite struct{}
 
